@@ -610,6 +610,12 @@ def match_finding(findings, prop, sig):
             continue
         if sig in f.get('sigs', ()):
             return f
+        if f.get('crash_any'):
+            # the same input may panic inside the dependency or run into the watchdog depending on machine load: for findings marked
+            # crash_any the listed INPUT is what identifies the finding, any crash class of that input belongs to it
+            head, _, last = sig.rpartition('|')
+            if last.startswith(('panic@', 'fatal:')) and any(x.rpartition('|')[0] == head for x in f.get('sigs', ())):
+                return f
     return None
 
 
